@@ -312,9 +312,20 @@ func checkC17(c *Ctx, r *Report) {
 	if f := r2.need("(*" + oaP + ".Manager).Start"); f != nil {
 		wired := false
 		for _, st := range findInstrs(f, func(in ssa.Instruction) bool { return isFieldWrite(in, "core/network.NotifyBundle.DisconnectedF") }) {
-			if mc, ok := strip2(st.(*ssa.Store).Val).(*ssa.MakeClosure); ok {
-				calls := callsIn(mc.Fn.(*ssa.Function), rcK)
-				if len(calls) == 1 && isParamVar(c, strip2(calls[0].Common().Args[1]), "c") {
+			// the installed callback (a function literal or a method value) withdraws the closed connection's
+			// observation on every path: whatever the connection's direction, whoever opened it
+			if g := installedFunc(st.(*ssa.Store).Val); g != nil && g.Blocks != nil && len(g.Params) >= 1 {
+				connP := g.Params[len(g.Params)-1]
+				calls := callsIn(g, rcK)
+				okArg := len(calls) >= 1
+				for _, call := range calls {
+					a := strip(call.Common().Args[1])
+					if a != ssa.Value(connP) && !isParamCellLoad(c, a, connP) {
+						okArg = false
+					}
+				}
+				w, _ := (&Cut{Fn: g, Target: func(in ssa.Instruction) bool { _, isRet := in.(*ssa.Return); return isRet && in.Parent() == g }, Sep: callPred(rcK)}).Run(c)
+				if okArg && w == "" {
 					wired = true
 				}
 			}
